@@ -269,6 +269,27 @@ func c0708Worker(w *W) {
 				w.Violate("C08:"+textDiffClass(string(tline), want, sp), fmt.Sprintf("event %d W=%d (features %s):\n got: %q\nwant: %q", i, W, ev.featKey(), trunc(string(tline), 1500), trunc(want, 1500)), gc)
 				continue
 			}
+			if i%4 == 1 {
+				// one event, several appenders: layouts configured with another width format the very same event object first
+				// (a logger fanning out to two appenders does exactly that); this layout's line must not depend on them
+				e := ev.toEvent()
+				W2 := []int{0, 2, 5, 20, 200, 17, -1, 1000}[(i/4)%8]
+				var t2, j2 []byte
+				if pv, _ := catch(func() {
+					_ = (&log.TextLayout{BaseLayout: log.BaseLayout{FileLineLength: W2}}).ToBytes(e)
+					_ = (&log.JSONLayout{BaseLayout: log.BaseLayout{FileLineLength: W2}}).ToBytes(e)
+					t2 = tl.ToBytes(e)
+					j2 = jl.ToBytes(e)
+				}); pv != nil {
+					w.Violate("C08:text-layout-panic", fmt.Sprintf("formatting one event with layouts of widths %d and %d panicked: %v", W2, W, pv), gc)
+					continue
+				}
+				if string(t2) != want || !bytes.Equal(j2, jline) {
+					w.Violate("C08:header", fmt.Sprintf("event %d: after layouts with width %d had formatted the same event object, the layout with W=%d produced\n text: %q\n json: %q\nexpected\n text: %q\n json: %q", i, W2, W, trunc(string(t2), 600), trunc(string(j2), 600), trunc(want, 600), trunc(string(jline), 600)), gc)
+					continue
+				}
+				w.Count("events_formatted_by_layouts_of_two_widths", 1)
+			}
 			wc := "wide"
 			switch {
 			case W < 3:
